@@ -20,6 +20,8 @@ import (
 	"sync"
 	"time"
 
+	"github.com/spf13/viper"
+
 	"verif/harness/sim/consul"
 	"verif/harness/vlib"
 )
@@ -51,8 +53,11 @@ type histDesc struct {
 	// remote service, shared by the callers of that core) | apricot (inside the apricot server)
 	Proxy       string `json:"cache_proxy,omitempty"`
 	ClientShare int    `json:"callers_per_remote_client,omitempty"`
-	FSeed       uint64 `json:"fseed"`
-	SSeed       int64  `json:"sseed"`
+	// configuration options a core may legally run with, switched on (viper keys set before
+	// any Service of the history is built, restored afterwards)
+	Options map[string]string `json:"options,omitempty"`
+	FSeed   uint64            `json:"fseed"`
+	SSeed   int64             `json:"sseed"`
 }
 
 type opRec struct {
@@ -196,6 +201,34 @@ func genDesc(r *rand.Rand, idx int64, kind string) *histDesc {
 			}
 		}
 	}
+	if idx%4 == 1 {
+		// every fourth history: verbose / veryVerbose / ... on, at least two core instances,
+		// and a counter well above what a private counter would hand out
+		d.Options = map[string]string{}
+		if r.Intn(4) != 0 {
+			d.Options["verbose"] = "true"
+		}
+		if r.Intn(2) == 0 || len(d.Options) == 0 {
+			d.Options["veryVerbose"] = "true"
+		}
+		if r.Intn(2) == 0 {
+			d.Options["trimSpaceInVarsFromConsulKV"] = "true"
+		}
+		d.Options["component"] = []string{"core", "apricot"}[r.Intn(2)]
+		switch d.Kind {
+		case "inproc":
+			if d.Share == d.W {
+				d.Share = d.W / 2
+			}
+		case "remote":
+			if d.SrvRest == nil {
+				a := r.Intn(d.W)
+				d.SrvRest = &srvRestartDesc{Actor: a, Call: 1 + r.Intn(d.Calls[a]-1)}
+			}
+		}
+		d.Preset = int64(100 + r.Intn(3000))
+		return d
+	}
 	switch x := r.Intn(10); {
 	case x < 3:
 		d.Preset = -1
@@ -234,6 +267,7 @@ type engine struct {
 	groups    []*group
 	remote    *remoteNode
 	clients   []*clientGroup
+	workDir   string        // scratch coreWorkingDir of the history (options histories)
 	quiesced  bool          // the scheduler is gone: later requests (the probe) pass
 	reqActor  map[int64]int // request arrival number -> caller it was attributed to
 	reqOrd    map[int]int
@@ -420,7 +454,7 @@ func (e *engine) instance(g *group, restart bool) (caller, string, error) {
 	var cl caller
 	var err error
 	if e.d.Kind == "kill" {
-		cl, err = newChildCaller(e.s.Addr, tag)
+		cl, err = e.newChild(tag)
 	} else {
 		cl, err = newInprocCaller(e.s.Addr, tag, e.d.Proxy == "core")
 	}
@@ -614,6 +648,24 @@ func (e *engine) killActor(actor int) {
 	if cl != nil {
 		cl.Kill()
 	}
+}
+
+// newChild: a core instance as a child process, with the history's options and
+// a working directory of its own.
+func (e *engine) newChild(tag string) (caller, error) {
+	var opts []string
+	if e.d.Options != nil {
+		for k, v := range e.d.Options {
+			opts = append(opts, k+"="+v)
+		}
+		sort.Strings(opts)
+		dir, err := os.MkdirTemp(e.workDir, "core-"+tag+"-")
+		if err != nil {
+			return nil, err
+		}
+		opts = append(opts, "coreWorkingDir="+dir)
+	}
+	return newChildCaller(e.s.Addr, tag, opts)
 }
 
 // ---------- the scheduler ----------
@@ -937,12 +989,38 @@ func runHistory(c *vlib.Ctx, idx int64, kind string) {
 		return
 	}
 	defer s.Stop()
+	workDir := ""
+	if d.Options != nil {
+		// viper is process-wide: the in-process instances of one history share one scratch
+		// working dir; child-process instances get one each below it
+		var err error
+		if workDir, err = os.MkdirTemp("", "c07-core-"); err != nil {
+			c.Inconclusive("scratch working dir: " + err.Error())
+			return
+		}
+		defer os.RemoveAll(workDir)
+		prev := map[string]interface{}{"coreWorkingDir": viper.Get("coreWorkingDir")}
+		viper.Set("coreWorkingDir", workDir)
+		for k, v := range d.Options {
+			prev[k] = viper.Get(k)
+			if v == "true" {
+				viper.Set(k, true)
+			} else {
+				viper.Set(k, v)
+			}
+		}
+		defer func() {
+			for k, v := range prev {
+				viper.Set(k, v)
+			}
+		}()
+	}
 	if d.Preset >= 0 {
 		s.Put(runKey, strconv.FormatInt(d.Preset, 10))
 	}
 	s.Put("o2/hardware/detectors/TST/flps/host1/cards", "{}") // cacheproxy.NewService reads the inventory
 	nActors := d.W + len(d.Foreign)
-	e := &engine{c: c, d: d, s: s, hc: &http.Client{Transport: &http.Transport{}},
+	e := &engine{c: c, d: d, s: s, workDir: workDir, hc: &http.Client{Transport: &http.Transport{}},
 		tagActor: map[string]int{"probe": -1}, tagGroup: map[string]int{}, reqActor: map[int64]int{}, reqOrd: map[int]int{}, cur: map[int]int{}, curTag: map[int]string{}, callers: map[int]caller{}}
 	for f := range d.Foreign {
 		e.tagActor[fmt.Sprintf("f%d", f)] = d.W + f
